@@ -32,28 +32,41 @@ def seg_kind(s):
     return ("F", s)
 
 
-def match(pattern, path):
-    """spec: returns (kind sequence, params, splats) or None"""
-    kinds, params, splats = [], [], []
-    i = 0
-    for k, name in pattern:
+def derivations(pattern, path):
+    """spec: every way the pattern matches the path - a fixed segment, a parameter and a wildcard consume one segment, an optional
+    parameter consumes one or is absent (anywhere) - as (kind sequence of the consumed segments, params, splats)"""
+    out = []
+
+    def go(pi, i, kinds, params, splats):
+        if pi == len(pattern):
+            if i == len(path):
+                out.append((tuple(kinds), tuple(sorted(params)), tuple(splats)))
+            return
+        k, name = pattern[pi]
+        if k == "O":
+            go(pi + 1, i, kinds, params, splats)                       # absent
         if i < len(path):
             v = path[i]
             if k == "F":
-                if v != name:
-                    return None
+                if v == name:
+                    go(pi + 1, i + 1, kinds + [KIND[k]], params, splats)
             elif k in ("P", "O"):
-                params.append((name, v))
+                go(pi + 1, i + 1, kinds + [KIND[k]], params + [(name, v)], splats)
             else:
-                splats.append(v)
-            kinds.append(KIND[k])
-            i += 1
-        else:
-            if k != "O":
-                return None
-    if i != len(path):
-        return None
-    return (tuple(kinds), tuple(sorted(params)), tuple(splats))
+                go(pi + 1, i + 1, kinds + [KIND[k]], params, splats + [v])
+    go(0, 0, [], [], [])
+    return out
+
+
+def middle_optional(pattern):
+    """an optional parameter followed by anything but optionals: whether it is present or absent decides what the later segments match"""
+    seen_opt = False
+    for k, _ in pattern:
+        if k == "O":
+            seen_opt = True
+        elif seen_opt:
+            return True
+    return False
 
 
 class Table:
@@ -76,15 +89,26 @@ class Table:
         self.routes[m] = [(p, h) for p, h in lst if p != pat]
         return True
 
-    def best(self, m, path):
-        """set of acceptable (hid, params, splats): minimal kind sequence, ties acceptable"""
+    def all_matches(self, m, path):
         ms = []
         for pat, hid in self.routes.get(m, []):
-            r = match(pat, path)
-            if r:
-                ms.append((r[0], hid, r[1], r[2]))
+            for kinds, params, splats in derivations(pat, path):
+                ms.append((kinds, hid, params, splats))
+        return ms
+
+    def ambiguous(self, m):
+        return any(middle_optional(pat) for pat, _ in self.routes.get(m, []))
+
+    def best(self, m, path):
+        """set of acceptable (hid, params, splats).  Tables whose optionals are all trailing: the derivations with the least kind
+        sequence (ties acceptable).  Tables with an optional in front of other segments: ANY derivation of any route (whether such an
+        optional is taken as present or absent is decided present-first by the search, which the property's precedence by kind does
+        not settle for one and the same route; the exact choice is compared with the model, see the open finding C10-present-first)."""
+        ms = self.all_matches(m, path)
         if not ms:
             return None
+        if self.ambiguous(m):
+            return {(h, p, s) for k, h, p, s in ms}
         mn = min(x[0] for x in ms)
         return {(h, p, s) for k, h, p, s in ms if k == mn}
 
@@ -112,6 +136,29 @@ def parse_result(tok):
     return (tok, None)
 
 
+def _case(routes, qs):
+    return ("T " + " ".join("+%d:%s:%d" % (m, pv.hexs(r.encode()), h) for m, r, h in routes)
+            + " Q " + " ".join("%d:%s" % (m, pv.hexs(r.encode())) for m, r in qs))
+
+
+# hand-computed from the property text.  FIXED_CASES: an optional parameter absent in front of other segments (404 / 405 / another
+# route before fix of the third seeding round).  PRESENT_FIRST_CASES: what the property's precedence by kind prescribes where the
+# search, which tries an optional as present before it tries it as absent, decides otherwise (open finding C10-present-first).
+FIXED_CASES = {
+    _case([(4, "/:x?/c", 1)], [(4, "/c"), (4, "/a/c"), (4, "/c/c"), (4, "/")]): "T ok Q M1()[] M1(3a78=61)[] M1(3a78=63)[] 404",
+    _case([(6, "/:y?/:x", 1)], [(1, "/2"), (6, "/2"), (6, "/1/2")]): "T ok Q 405(DELETE) M1(3a78=32)[] M1(3a78=32,3a79=31)[]",
+    _case([(1, "/:x", 1), (4, "/:x?/:y", 2)], [(4, "/a"), (1, "/a"), (4, "/a/b")]): "T ok ok Q M2(3a79=61)[] M1(3a78=61)[] M2(3a78=61,3a79=62)[]",
+}
+PRESENT_FIRST_CASES = {
+    # '/a': the fixed segment of route 2 beats the optional of route 1
+    _case([(6, "/:x?", 1), (6, "/:x?/a", 2)], [(6, "/a"), (6, "/b"), (6, "/b/a"), (6, "/")]): "T ok ok Q M2()[] M1(3a78=62)[] M2(3a78=62)[] M1()[]",
+    # '/c/a': segment 1 is taken by the parameter p1 (parameter over optional), segment 2 by the optional p2
+    _case([(4, "/:p0?/:p1/:p2?", 1)], [(4, "/c/a"), (4, "/c"), (4, "/c/a/b")]): "T ok Q M1(3a7031=63,3a7032=61)[] M1(3a7031=63)[] M1(3a7030=63,3a7031=61,3a7032=62)[]",
+    # '/b/b': both routes take 'b' as a fixed segment; then the optional q of route 1 beats the wildcard of route 2
+    _case([(2, "/:o?/b/:q?", 1), (2, "/b/*", 2)], [(2, "/b/b"), (2, "/b"), (2, "/a/b")]): "T ok ok Q M1(3a71=62)[] M1()[] M1(3a6f=61)[]",
+}
+
+
 class C10(Spec):
     pid = "C10"
     area = "router"
@@ -121,10 +168,11 @@ class C10(Spec):
     timeout = 900
     rule = ("route tables of up to 12 patterns over the segment alphabet {a,b,c}, one parameter name and one optional name "
             "per tree position (overlaps and shadowing frequent), 2-3 methods, built by add/remove sequences through "
-            "Rest::Router and served by a live Http::Endpoint; requests: paths of 0-4 segments over {a,b,c,zz} with "
+            "Rest::Router and served by a live Http::Endpoint (optional parameters at any depth, also in front of other segments); requests: paths of 0-4 segments over {a,b,c,zz} with "
             "duplicate/leading/trailing slashes, every method of the table plus one without routes. Model: extracted "
-            "find_route/route. Oracle: independent Python reading of the property (best match = lexicographically least "
-            "kind sequence fixed<param<optional<wildcard; 405 with exactly the matching other methods; else 404). "
+            "find_route/route. Oracle: independent Python reading of the property: every derivation of every route (an optional parameter consumes a segment or is absent, anywhere); "
+            "for tables whose optionals are all trailing the result must be a derivation with the lexicographically least kind sequence fixed<param<optional<wildcard, for tables with an optional in front of other segments "
+            "it must be some derivation of some route (the exact choice is compared with the model); 405 with exactly the matching other methods; else 404; plus hand-computed tables. "
             "non-trivial = query matched by two or more patterns or answered 405; distinct by (table, query)")
     assumptions = ["tables keep one parameter name and one optional name per tree position (differently named parameters at "
                    "one position are searched in hash order by the C++: documented limitation F2 in DESIGN.md)",
@@ -148,6 +196,9 @@ class C10(Spec):
                 out.append("*")
         return "/" + "/".join(out) + (rng.choice(["", "", "/"]) if out else "")
 
+    def corpus(self):
+        return list(FIXED_CASES) + list(PRESENT_FIRST_CASES)
+
     def gen(self, rng, tier):
         ntab = 60 if tier == "quick" else 800
         nq = 90 if tier == "quick" else 340
@@ -155,7 +206,7 @@ class C10(Spec):
         for L in range(1, 5):
             for c in itertools.product(["a", "b", "c", "zz"], repeat=L):
                 allpaths.append("/".join(c))
-        cases = []
+        cases = self.corpus()
         for _ in range(ntab):
             methods = rng.sample([1, 2, 4, 6], rng.choice([1, 2, 2, 3]))
             tab = Table()
@@ -218,6 +269,11 @@ class C10(Spec):
     def oracle(self, case, impl):
         if impl.startswith(("CRASH", "HANG")):
             return "router harness %s" % impl
+        want = FIXED_CASES.get(case) or PRESENT_FIRST_CASES.get(case)
+        if want is not None:
+            if impl.split() != want.split():
+                return "hand-computed expectation (precedence by segment kind, optional parameters absent anywhere): expected '%s', got '%s' for %s" % (want, impl, case)
+            return None
         tab, qs = self.tables.get(case, (None, None))
         if tab is None:
             return None
